@@ -520,3 +520,441 @@ pub fn sym_conformance_lc3_lp0_pb2() {
 pub fn sym_dry_run_symprops() {
     one_symbol::<12288, 0, false>()
 }
+
+// ---------------------------------------------------------------------------------------
+// Abstract symbols: a loop-free stand-in for process_next_inner used where the subject is the
+// glue around it (process_mode, Stream, the LZMA2 chunk loop), not symbol decoding.
+// The glue never looks at compressed bytes, reps or the decoder state number, so the script of
+// the next symbols is kept in fields the glue does not touch:
+//   d.state = index of the next symbol (mod 4), d.rep[i] = length_i | kind_i << 8
+//   length 1..=20 bytes (like a real symbol); kind 0 literal, 1 end marker, 2 corrupt symbol
+//   fewer than `length` bytes visible -> Err (what the real decoder reports when input runs out)
+//   value = first ^ last byte; (range, code) are folded with first/last so that the coder
+//   state after a symbol depends on every committed symbol, in order.
+// Lengths are therefore concrete per harness instance while all bytes stay symbolic (a
+// data-dependent length makes every buffer offset symbolic, measured to explode).
+// Contract it stands for (decided elsewhere): one real symbol consumes <= 20 bytes (argued in
+// DESIGN), update=false consumes/decides the same and changes nothing (sym_dry_run_*).
+// ---------------------------------------------------------------------------------------
+pub const K_LIT: usize = 0;
+pub const K_MARKER: usize = 1;
+pub const K_BAD: usize = 2;
+pub fn script(len: usize, kind: usize) -> usize {
+    len | (kind << 8)
+}
+pub fn abs_fold(range: u32, code: u32, first: u8, last: u8) -> (u32, u32) {
+    (
+        range.rotate_left(3) ^ (first as u32) ^ 0x9E37_0000,
+        code.rotate_left(5) ^ (first as u32) ^ ((last as u32) << 8),
+    )
+}
+
+pub fn abs_symbol<W, LZB, R>(
+    d: &mut DecoderState,
+    output: &mut LZB,
+    rc: &mut RangeDecoder<'_, R>,
+    update: bool,
+) -> error::Result<ProcessingStatus>
+where
+    W: std::io::Write,
+    LZB: LzBuffer<W>,
+    R: std::io::BufRead,
+{
+    let sc = d.rep[d.state & 3];
+    let l = sc & 0xFF;
+    let kind = sc >> 8;
+    let (first, last) = {
+        let buf = match rc.stream.fill_buf() {
+            Ok(b) => b,
+            Err(e) => return Err(error::Error::IoError(e)),
+        };
+        if buf.len() < l {
+            return Err(error::Error::LzmaError(String::new()));
+        }
+        (buf[0], buf[l - 1])
+    };
+    rc.stream.consume(l);
+    let (nr, nc) = abs_fold(rc.range, rc.code, first, last);
+    rc.range = nr;
+    rc.code = nc;
+    if kind == K_BAD {
+        return Err(error::Error::LzmaError(String::new()));
+    }
+    if update {
+        if kind == K_MARKER {
+            d.state = (d.state + 1) & 3;
+            return match rc.is_finished_ok() {
+                Ok(true) => Ok(ProcessingStatus::Finished),
+                Ok(false) => Err(error::Error::LzmaError(String::new())),
+                Err(e) => Err(error::Error::IoError(e)),
+            };
+        }
+        match output.append_literal(first ^ last) {
+            Ok(()) => {}
+            Err(e) => return Err(e),
+        }
+        d.state = (d.state + 1) & 3;
+    }
+    Ok(ProcessingStatus::Continue)
+}
+
+/// A window that just records literals (abstract symbols only append literals).
+pub struct SeqWindow<const S: usize> {
+    pub base: usize,
+    pub out: [u8; S],
+    pub n: usize,
+    pub sink: RecSink<1>,
+    pub overflow: bool,
+}
+impl<const S: usize> SeqWindow<S> {
+    pub fn new(base: usize) -> Self {
+        SeqWindow {
+            base,
+            out: [0; S],
+            n: 0,
+            sink: RecSink::<1>::new(),
+            overflow: false,
+        }
+    }
+}
+impl<const S: usize> LzBuffer<RecSink<1>> for SeqWindow<S> {
+    fn len(&self) -> usize {
+        self.base + self.n
+    }
+    fn last_or(&self, lit: u8) -> u8 {
+        lit
+    }
+    fn last_n(&self, _dist: usize) -> error::Result<u8> {
+        Ok(0)
+    }
+    fn append_literal(&mut self, lit: u8) -> error::Result<()> {
+        if self.n < S {
+            self.out[self.n] = lit;
+            self.n += 1;
+        } else {
+            self.overflow = true;
+        }
+        Ok(())
+    }
+    fn append_lz(&mut self, _len: usize, _dist: usize) -> error::Result<()> {
+        Ok(())
+    }
+    fn get_output(&self) -> &RecSink<1> {
+        &self.sink
+    }
+    fn get_output_mut(&mut self) -> &mut RecSink<1> {
+        &mut self.sink
+    }
+    fn finish(self) -> std::io::Result<RecSink<1>> {
+        Ok(self.sink)
+    }
+    fn into_output(self) -> RecSink<1> {
+        self.sink
+    }
+}
+
+/// C05-H2 / C15: one call of process_stream (Partial mode) from an ARBITRARY carry-over state.
+///   P  bytes already in partial_input_buf, R bytes offered by the reader (concrete shape),
+///   Q = carry ++ input is cut into symbols of lengths L1, L2, L3 (concrete), a 4th symbol
+///   header follows if bytes remain. Contents, kinds (literal only here) and (range, code)
+///   are symbolic.
+/// Queue semantics: exactly the symbols that are complete in Q are committed, in order; the
+/// uncommitted suffix is the new carry; the reader is drained; (range, code) advance by the
+/// committed symbols; nothing else changes.
+fn partial_step<const P: usize, const R: usize, const L1: usize, const L2: usize, const L3: usize>() {
+    let mut t = Tape::<64>::new();
+    let mut q: [u8; 40] = t.bytes::<40>();
+    let range = t.u32();
+    let code = t.u32();
+    let total = P + R;
+    let offs = [0usize, L1, L1 + L2, L1 + L2 + L3];
+    let lens = [L1, L2, L3, 20usize];
+    // expected commits: symbols fully inside Q[..total]
+    let mut ncommit = 0usize;
+    let mut used = 0usize;
+    let mut er = range;
+    let mut ec = code;
+    let mut vals = [0u8; 4];
+    let mut j = 0;
+    while j < 4 {
+        if ncommit == j && offs[j] + lens[j] <= total {
+            let f = q[offs[j]];
+            let l = q[offs[j] + lens[j] - 1];
+            vals[j] = f ^ l;
+            let (a, b) = abs_fold(er, ec, f, l);
+            er = a;
+            ec = b;
+            ncommit = j + 1;
+            used = offs[j] + lens[j];
+        }
+        j += 1;
+    }
+    let mut d = light_state::<0>(LzmaProperties { lc: 0, lp: 0, pb: 0 }, None);
+    d.state = 0;
+    d.rep = [script(L1, K_LIT), script(L2, K_LIT), script(L3, K_LIT), script(20, K_LIT)];
+    {
+        let buf = d.partial_input_buf.get_mut();
+        let mut c = 0;
+        while c < P {
+            buf[c] = q[c];
+            c += 1;
+        }
+    }
+    d.partial_input_buf.set_position(P as u64);
+    let mut input = [0u8; R];
+    let mut c = 0;
+    while c < R {
+        input[c] = q[P + c];
+        c += 1;
+    }
+    let mut rd = ArrReader::<R>::new(input, R);
+    let mut win = SeqWindow::<4>::new(0);
+    let (res_ok, r_range, r_code) = {
+        let mut rc = RangeDecoder::from_parts(&mut rd, range, code);
+        let r = d.process_stream(&mut win, &mut rc);
+        let ok = r.is_ok();
+        forget(r);
+        (ok, rc.range, rc.code)
+    };
+    vassert!(res_ok, "partial: a call on well-formed (possibly incomplete) symbols succeeds");
+    vassert!(win.n == ncommit && !win.overflow, "partial: commits exactly the symbols that are complete in carry++input");
+    let mut m = 0;
+    while m < 4 {
+        if m < ncommit {
+            vassert!(win.out[m] == vals[m], "partial: committed symbols in order with the right values");
+        }
+        m += 1;
+    }
+    vassert!(r_range == er && r_code == ec, "partial: (range, code) advanced exactly by the committed symbols");
+    vassert!(rd.pos == R, "partial: the reader is drained");
+    let carry = d.partial_input_buf.position() as usize;
+    vassert!(carry == total - used, "partial: the carry is exactly the uncommitted suffix");
+    vassert!(carry < MAX_REQUIRED_INPUT, "partial: fewer than 20 bytes stay uncommitted");
+    let x = (t.u8() as usize) % 20;
+    if x < carry {
+        vassert!(d.partial_input_buf.get_ref()[x] == q[used + x], "partial: carry bytes are the uncommitted bytes, in order");
+    }
+    vassert!(d.state == ncommit & 3, "partial: decoder state advanced once per committed symbol");
+    vcover!(ncommit >= 1 && carry >= 1, "commit_and_carry");
+    vcover!(ncommit == 0, "nothing_committed");
+    vcover!(true, "end_reached");
+    forget(d);
+}
+
+// ----- partial-mode step instances (generated list of boundary shapes) -----
+
+//@ harness props=C05,C15,C11 tier=quick unwind=22 unwindset=process_mode:7 mem_gb=4 timeout=600 native=no opt_covers=commit_and_carry,nothing_committed
+//@ bound: one process_stream call: carry 0 bytes, reader 6 bytes, symbol lengths 5,20,1(,20); contents/range/code symbolic; abstract symbols
+#[cfg_attr(kani, kani::proof)]
+#[cfg_attr(kani, kani::stub(std::fmt::format, crate::verif_common::stub_format))]
+#[cfg_attr(kani, kani::stub(crate::decode::lzma::DecoderState::process_next_inner, crate::decode::lzma::verif_h::abs_symbol))]
+pub fn partial_p0_r6_l5_20_1() {
+    partial_step::<0, 6, 5, 20, 1>()
+}
+
+//@ harness props=C05,C15,C11 tier=quick unwind=22 unwindset=process_mode:7 mem_gb=4 timeout=600 native=no opt_covers=commit_and_carry,nothing_committed
+//@ bound: one process_stream call: carry 0 bytes, reader 5 bytes, symbol lengths 5,20,1(,20); contents/range/code symbolic; abstract symbols
+#[cfg_attr(kani, kani::proof)]
+#[cfg_attr(kani, kani::stub(std::fmt::format, crate::verif_common::stub_format))]
+#[cfg_attr(kani, kani::stub(crate::decode::lzma::DecoderState::process_next_inner, crate::decode::lzma::verif_h::abs_symbol))]
+pub fn partial_p0_r5_l5_20_1() {
+    partial_step::<0, 5, 5, 20, 1>()
+}
+
+//@ harness props=C05,C15,C11 tier=quick unwind=22 unwindset=process_mode:7 mem_gb=4 timeout=600 native=no opt_covers=commit_and_carry,nothing_committed
+//@ bound: one process_stream call: carry 0 bytes, reader 4 bytes, symbol lengths 5,20,1(,20); contents/range/code symbolic; abstract symbols
+#[cfg_attr(kani, kani::proof)]
+#[cfg_attr(kani, kani::stub(std::fmt::format, crate::verif_common::stub_format))]
+#[cfg_attr(kani, kani::stub(crate::decode::lzma::DecoderState::process_next_inner, crate::decode::lzma::verif_h::abs_symbol))]
+pub fn partial_p0_r4_l5_20_1() {
+    partial_step::<0, 4, 5, 20, 1>()
+}
+
+//@ harness props=C05,C15,C11 tier=quick unwind=22 unwindset=process_mode:7 mem_gb=4 timeout=600 native=no opt_covers=commit_and_carry,nothing_committed
+//@ bound: one process_stream call: carry 3 bytes, reader 6 bytes, symbol lengths 5,20,1(,20); contents/range/code symbolic; abstract symbols
+#[cfg_attr(kani, kani::proof)]
+#[cfg_attr(kani, kani::stub(std::fmt::format, crate::verif_common::stub_format))]
+#[cfg_attr(kani, kani::stub(crate::decode::lzma::DecoderState::process_next_inner, crate::decode::lzma::verif_h::abs_symbol))]
+pub fn partial_p3_r6_l5_20_1() {
+    partial_step::<3, 6, 5, 20, 1>()
+}
+
+//@ harness props=C05,C15,C11 tier=quick unwind=22 unwindset=process_mode:7 mem_gb=4 timeout=600 native=no opt_covers=commit_and_carry,nothing_committed
+//@ bound: one process_stream call: carry 19 bytes, reader 2 bytes, symbol lengths 20,3,1(,20); contents/range/code symbolic; abstract symbols
+#[cfg_attr(kani, kani::proof)]
+#[cfg_attr(kani, kani::stub(std::fmt::format, crate::verif_common::stub_format))]
+#[cfg_attr(kani, kani::stub(crate::decode::lzma::DecoderState::process_next_inner, crate::decode::lzma::verif_h::abs_symbol))]
+pub fn partial_p19_r2_l20_3_1() {
+    partial_step::<19, 2, 20, 3, 1>()
+}
+
+//@ harness props=C05,C15,C11 tier=quick unwind=22 unwindset=process_mode:7 mem_gb=4 timeout=600 native=no opt_covers=commit_and_carry,nothing_committed
+//@ bound: one process_stream call: carry 19 bytes, reader 1 bytes, symbol lengths 20,3,1(,20); contents/range/code symbolic; abstract symbols
+#[cfg_attr(kani, kani::proof)]
+#[cfg_attr(kani, kani::stub(std::fmt::format, crate::verif_common::stub_format))]
+#[cfg_attr(kani, kani::stub(crate::decode::lzma::DecoderState::process_next_inner, crate::decode::lzma::verif_h::abs_symbol))]
+pub fn partial_p19_r1_l20_3_1() {
+    partial_step::<19, 1, 20, 3, 1>()
+}
+
+//@ harness props=C05,C15,C11 tier=quick unwind=22 unwindset=process_mode:7 mem_gb=4 timeout=600 native=no opt_covers=commit_and_carry,nothing_committed
+//@ bound: one process_stream call: carry 19 bytes, reader 0 bytes, symbol lengths 20,3,1(,20); contents/range/code symbolic; abstract symbols
+#[cfg_attr(kani, kani::proof)]
+#[cfg_attr(kani, kani::stub(std::fmt::format, crate::verif_common::stub_format))]
+#[cfg_attr(kani, kani::stub(crate::decode::lzma::DecoderState::process_next_inner, crate::decode::lzma::verif_h::abs_symbol))]
+pub fn partial_p19_r0_l20_3_1() {
+    partial_step::<19, 0, 20, 3, 1>()
+}
+
+//@ harness props=C05,C15,C11 tier=quick unwind=22 unwindset=process_mode:7 mem_gb=4 timeout=600 native=no opt_covers=commit_and_carry,nothing_committed
+//@ bound: one process_stream call: carry 1 bytes, reader 8 bytes, symbol lengths 9,1,1(,20); contents/range/code symbolic; abstract symbols
+#[cfg_attr(kani, kani::proof)]
+#[cfg_attr(kani, kani::stub(std::fmt::format, crate::verif_common::stub_format))]
+#[cfg_attr(kani, kani::stub(crate::decode::lzma::DecoderState::process_next_inner, crate::decode::lzma::verif_h::abs_symbol))]
+pub fn partial_p1_r8_l9_1_1() {
+    partial_step::<1, 8, 9, 1, 1>()
+}
+
+//@ harness props=C05,C15,C11 tier=quick unwind=22 unwindset=process_mode:7 mem_gb=4 timeout=600 native=no opt_covers=commit_and_carry,nothing_committed
+//@ bound: one process_stream call: carry 1 bytes, reader 7 bytes, symbol lengths 9,1,1(,20); contents/range/code symbolic; abstract symbols
+#[cfg_attr(kani, kani::proof)]
+#[cfg_attr(kani, kani::stub(std::fmt::format, crate::verif_common::stub_format))]
+#[cfg_attr(kani, kani::stub(crate::decode::lzma::DecoderState::process_next_inner, crate::decode::lzma::verif_h::abs_symbol))]
+pub fn partial_p1_r7_l9_1_1() {
+    partial_step::<1, 7, 9, 1, 1>()
+}
+
+//@ harness props=C05,C15,C11 tier=quick unwind=22 unwindset=process_mode:7 mem_gb=4 timeout=600 native=no opt_covers=commit_and_carry,nothing_committed
+//@ bound: one process_stream call: carry 0 bytes, reader 8 bytes, symbol lengths 20,1,1(,20); contents/range/code symbolic; abstract symbols
+#[cfg_attr(kani, kani::proof)]
+#[cfg_attr(kani, kani::stub(std::fmt::format, crate::verif_common::stub_format))]
+#[cfg_attr(kani, kani::stub(crate::decode::lzma::DecoderState::process_next_inner, crate::decode::lzma::verif_h::abs_symbol))]
+pub fn partial_p0_r8_l20_1_1() {
+    partial_step::<0, 8, 20, 1, 1>()
+}
+
+//@ harness props=C05,C15,C11 tier=quick unwind=22 unwindset=process_mode:7 mem_gb=4 timeout=600 native=no opt_covers=commit_and_carry,nothing_committed
+//@ bound: one process_stream call: carry 10 bytes, reader 8 bytes, symbol lengths 20,1,1(,20); contents/range/code symbolic; abstract symbols
+#[cfg_attr(kani, kani::proof)]
+#[cfg_attr(kani, kani::stub(std::fmt::format, crate::verif_common::stub_format))]
+#[cfg_attr(kani, kani::stub(crate::decode::lzma::DecoderState::process_next_inner, crate::decode::lzma::verif_h::abs_symbol))]
+pub fn partial_p10_r8_l20_1_1() {
+    partial_step::<10, 8, 20, 1, 1>()
+}
+
+//@ harness props=C05,C15,C11 tier=quick unwind=22 unwindset=process_mode:7 mem_gb=4 timeout=600 native=no opt_covers=commit_and_carry,nothing_committed
+//@ bound: one process_stream call: carry 12 bytes, reader 8 bytes, symbol lengths 20,1,1(,20); contents/range/code symbolic; abstract symbols
+#[cfg_attr(kani, kani::proof)]
+#[cfg_attr(kani, kani::stub(std::fmt::format, crate::verif_common::stub_format))]
+#[cfg_attr(kani, kani::stub(crate::decode::lzma::DecoderState::process_next_inner, crate::decode::lzma::verif_h::abs_symbol))]
+pub fn partial_p12_r8_l20_1_1() {
+    partial_step::<12, 8, 20, 1, 1>()
+}
+
+//@ harness props=C05,C15,C11 tier=quick unwind=22 unwindset=process_mode:7 mem_gb=4 timeout=600 native=no opt_covers=commit_and_carry,nothing_committed
+//@ bound: one process_stream call: carry 11 bytes, reader 8 bytes, symbol lengths 20,1,1(,20); contents/range/code symbolic; abstract symbols
+#[cfg_attr(kani, kani::proof)]
+#[cfg_attr(kani, kani::stub(std::fmt::format, crate::verif_common::stub_format))]
+#[cfg_attr(kani, kani::stub(crate::decode::lzma::DecoderState::process_next_inner, crate::decode::lzma::verif_h::abs_symbol))]
+pub fn partial_p11_r8_l20_1_1() {
+    partial_step::<11, 8, 20, 1, 1>()
+}
+
+//@ harness props=C05,C15,C11 tier=quick unwind=22 unwindset=process_mode:7 mem_gb=4 timeout=600 native=no opt_covers=commit_and_carry,nothing_committed
+//@ bound: one process_stream call: carry 0 bytes, reader 0 bytes, symbol lengths 1,1,1(,20); contents/range/code symbolic; abstract symbols
+#[cfg_attr(kani, kani::proof)]
+#[cfg_attr(kani, kani::stub(std::fmt::format, crate::verif_common::stub_format))]
+#[cfg_attr(kani, kani::stub(crate::decode::lzma::DecoderState::process_next_inner, crate::decode::lzma::verif_h::abs_symbol))]
+pub fn partial_p0_r0_l1_1_1() {
+    partial_step::<0, 0, 1, 1, 1>()
+}
+
+//@ harness props=C05,C15,C11 tier=quick unwind=22 unwindset=process_mode:7 mem_gb=4 timeout=600 native=no opt_covers=commit_and_carry,nothing_committed
+//@ bound: one process_stream call: carry 5 bytes, reader 0 bytes, symbol lengths 6,1,1(,20); contents/range/code symbolic; abstract symbols
+#[cfg_attr(kani, kani::proof)]
+#[cfg_attr(kani, kani::stub(std::fmt::format, crate::verif_common::stub_format))]
+#[cfg_attr(kani, kani::stub(crate::decode::lzma::DecoderState::process_next_inner, crate::decode::lzma::verif_h::abs_symbol))]
+pub fn partial_p5_r0_l6_1_1() {
+    partial_step::<5, 0, 6, 1, 1>()
+}
+
+//@ harness props=C05,C15,C11 tier=quick unwind=22 unwindset=process_mode:7 mem_gb=4 timeout=600 native=no opt_covers=commit_and_carry,nothing_committed
+//@ bound: one process_stream call: carry 5 bytes, reader 0 bytes, symbol lengths 5,1,1(,20); contents/range/code symbolic; abstract symbols
+#[cfg_attr(kani, kani::proof)]
+#[cfg_attr(kani, kani::stub(std::fmt::format, crate::verif_common::stub_format))]
+#[cfg_attr(kani, kani::stub(crate::decode::lzma::DecoderState::process_next_inner, crate::decode::lzma::verif_h::abs_symbol))]
+pub fn partial_p5_r0_l5_1_1() {
+    partial_step::<5, 0, 5, 1, 1>()
+}
+
+//@ harness props=C05,C15,C11 tier=quick unwind=22 unwindset=process_mode:7 mem_gb=4 timeout=600 native=no opt_covers=commit_and_carry,nothing_committed
+//@ bound: one process_stream call: carry 2 bytes, reader 3 bytes, symbol lengths 1,1,1(,20); contents/range/code symbolic; abstract symbols
+#[cfg_attr(kani, kani::proof)]
+#[cfg_attr(kani, kani::stub(std::fmt::format, crate::verif_common::stub_format))]
+#[cfg_attr(kani, kani::stub(crate::decode::lzma::DecoderState::process_next_inner, crate::decode::lzma::verif_h::abs_symbol))]
+pub fn partial_p2_r3_l1_1_1() {
+    partial_step::<2, 3, 1, 1, 1>()
+}
+
+//@ harness props=C05,C15,C11 tier=quick unwind=22 unwindset=process_mode:7 mem_gb=4 timeout=600 native=no opt_covers=commit_and_carry,nothing_committed
+//@ bound: one process_stream call: carry 0 bytes, reader 1 bytes, symbol lengths 1,1,1(,20); contents/range/code symbolic; abstract symbols
+#[cfg_attr(kani, kani::proof)]
+#[cfg_attr(kani, kani::stub(std::fmt::format, crate::verif_common::stub_format))]
+#[cfg_attr(kani, kani::stub(crate::decode::lzma::DecoderState::process_next_inner, crate::decode::lzma::verif_h::abs_symbol))]
+pub fn partial_p0_r1_l1_1_1() {
+    partial_step::<0, 1, 1, 1, 1>()
+}
+
+//@ harness props=C05,C15,C11 tier=quick unwind=22 unwindset=process_mode:7 mem_gb=4 timeout=600 native=no opt_covers=commit_and_carry,nothing_committed
+//@ bound: one process_stream call: carry 0 bytes, reader 1 bytes, symbol lengths 2,1,1(,20); contents/range/code symbolic; abstract symbols
+#[cfg_attr(kani, kani::proof)]
+#[cfg_attr(kani, kani::stub(std::fmt::format, crate::verif_common::stub_format))]
+#[cfg_attr(kani, kani::stub(crate::decode::lzma::DecoderState::process_next_inner, crate::decode::lzma::verif_h::abs_symbol))]
+pub fn partial_p0_r1_l2_1_1() {
+    partial_step::<0, 1, 2, 1, 1>()
+}
+
+//@ harness props=C05,C15,C11 tier=quick unwind=22 unwindset=process_mode:7 mem_gb=4 timeout=600 native=no opt_covers=commit_and_carry,nothing_committed
+//@ bound: one process_stream call: carry 19 bytes, reader 8 bytes, symbol lengths 20,7,1(,20); contents/range/code symbolic; abstract symbols
+#[cfg_attr(kani, kani::proof)]
+#[cfg_attr(kani, kani::stub(std::fmt::format, crate::verif_common::stub_format))]
+#[cfg_attr(kani, kani::stub(crate::decode::lzma::DecoderState::process_next_inner, crate::decode::lzma::verif_h::abs_symbol))]
+pub fn partial_p19_r8_l20_7_1() {
+    partial_step::<19, 8, 20, 7, 1>()
+}
+
+//@ harness props=C05,C15,C11 tier=quick unwind=22 unwindset=process_mode:7 mem_gb=4 timeout=600 native=no opt_covers=commit_and_carry,nothing_committed
+//@ bound: one process_stream call: carry 19 bytes, reader 8 bytes, symbol lengths 19,8,1(,20); contents/range/code symbolic; abstract symbols
+#[cfg_attr(kani, kani::proof)]
+#[cfg_attr(kani, kani::stub(std::fmt::format, crate::verif_common::stub_format))]
+#[cfg_attr(kani, kani::stub(crate::decode::lzma::DecoderState::process_next_inner, crate::decode::lzma::verif_h::abs_symbol))]
+pub fn partial_p19_r8_l19_8_1() {
+    partial_step::<19, 8, 19, 8, 1>()
+}
+
+//@ harness props=C05,C15,C11 tier=quick unwind=22 unwindset=process_mode:7 mem_gb=4 timeout=600 native=no opt_covers=commit_and_carry,nothing_committed
+//@ bound: one process_stream call: carry 18 bytes, reader 8 bytes, symbol lengths 20,6,2(,20); contents/range/code symbolic; abstract symbols
+#[cfg_attr(kani, kani::proof)]
+#[cfg_attr(kani, kani::stub(std::fmt::format, crate::verif_common::stub_format))]
+#[cfg_attr(kani, kani::stub(crate::decode::lzma::DecoderState::process_next_inner, crate::decode::lzma::verif_h::abs_symbol))]
+pub fn partial_p18_r8_l20_6_2() {
+    partial_step::<18, 8, 20, 6, 2>()
+}
+
+//@ harness props=C05,C15,C11 tier=quick unwind=22 unwindset=process_mode:7 mem_gb=4 timeout=600 native=no opt_covers=commit_and_carry,nothing_committed
+//@ bound: one process_stream call: carry 7 bytes, reader 8 bytes, symbol lengths 2,19,1(,20); contents/range/code symbolic; abstract symbols
+#[cfg_attr(kani, kani::proof)]
+#[cfg_attr(kani, kani::stub(std::fmt::format, crate::verif_common::stub_format))]
+#[cfg_attr(kani, kani::stub(crate::decode::lzma::DecoderState::process_next_inner, crate::decode::lzma::verif_h::abs_symbol))]
+pub fn partial_p7_r8_l2_19_1() {
+    partial_step::<7, 8, 2, 19, 1>()
+}
+
+//@ harness props=C05,C15,C11 tier=quick unwind=22 unwindset=process_mode:7 mem_gb=4 timeout=600 native=no opt_covers=commit_and_carry,nothing_committed
+//@ bound: one process_stream call: carry 0 bytes, reader 8 bytes, symbol lengths 3,3,3(,20); contents/range/code symbolic; abstract symbols
+#[cfg_attr(kani, kani::proof)]
+#[cfg_attr(kani, kani::stub(std::fmt::format, crate::verif_common::stub_format))]
+#[cfg_attr(kani, kani::stub(crate::decode::lzma::DecoderState::process_next_inner, crate::decode::lzma::verif_h::abs_symbol))]
+pub fn partial_p0_r8_l3_3_3() {
+    partial_step::<0, 8, 3, 3, 3>()
+}
